@@ -148,6 +148,12 @@ func (s *RelationshipPatternVisitor) EnterOC_RangeLiteral(ctx *parser.OC_RangeLi
 			}
 		}
 	}
+
+	// A single bound without a range operator, e.g. [*2], is an exact length and not an open-ended lower bound
+	if state == stateFirstIndex && s.RelationshipPattern.Range.StartIndex != nil {
+		exactLength := *s.RelationshipPattern.Range.StartIndex
+		s.RelationshipPattern.Range.EndIndex = &exactLength
+	}
 }
 
 func (s *RelationshipPatternVisitor) EnterOC_Properties(ctx *parser.OC_PropertiesContext) {
